@@ -180,7 +180,7 @@ func c19Options() chain.Options {
 		tw = c19Tracer
 	}
 	return chain.Options{StoreTrace: tw, Denoms: []string{"foo", "bar", "baz"}, NumAccounts: 8, NumValidators: 2,
-		Epochs: map[string]time.Duration{"day": time.Hour, "week": 3 * time.Hour}, GenesisMutator: c19Genesis}
+		Epochs: map[string]time.Duration{"day": 40 * time.Minute, "week": 2 * time.Hour}, GenesisMutator: c19Genesis}
 }
 
 func writeJSONL(path string, v any) {
